@@ -383,4 +383,5 @@ PROPS["C01"]["explanation"] += (" x12_roundtrip: the same for a message planned 
     " in the symbol (run ends with the symbol; single trailing ASCII codeword without UNLATCH; UNLATCH + rest in ASCII + padding). For arbitrary injected plans the round trip does not hold"
     " (a switch planned inside the last two characters of an X12 run leaves a stale latch after set_ascii_until_end; shown by evaluating the models, DESIGN.md 0.6), so the data-level theorems are stated per plan shape.")
 PROPS["C01"]["explanation"] += " b256_roundtrip: the same for a message planned entirely in Base 256 (one- and two-codeword length, length 0 = to the end of the symbol when the data ends with the symbol, 255-state randomisation by position)."
-PROPS["C01"]["unproved"] = ["encode_conformant for C40, Text, EDIFACT and for mixed plans produced by the optimiser (proved per plan shape: ascii_roundtrip, x12_roundtrip, b256_roundtrip)"]
+PROPS["C01"]["explanation"] += " edifact_roundtrip: the same for a message planned entirely in EDIFACT (characters 32..94): complete quadruples, then try_ascii_end (<= 4 characters as <= 2 ASCII codewords without UNLATCH when <= 2 codewords are left), the UNLATCH value in the next free slot (the proof derives the three codewords the decoder needs from the encoder's space tests) or the exact end of the symbol; the handle_end branch that writes buffered characters without UNLATCH is shown unreachable."
+PROPS["C01"]["unproved"] = ["encode_conformant for C40 / Text and for mixed plans produced by the optimiser (proved per plan shape: ascii_roundtrip, x12_roundtrip, b256_roundtrip, edifact_roundtrip)"]
